@@ -13,6 +13,7 @@ From Coq Require Import String.
 From Coq Require Import List Ascii ZArith Bool.
 From CGV Require Import Base.PyBase Base.PyVal Base.NxGraph Gen.HydroGen Hydro.Hydrogens Hydro.Squash
      Hydro.SquashDefs Hydro.SquashProofs Hydro.SquashTotal Hydro.ShareProofs Hydro.QuotientDefs Hydro.QuotientProofs Hydro.BangBonds Hydro.BangGraph.
+From CGV Require Compose.CutModel Compose.CutSkeleton Compose.GraphAdj Hydro.ShareCut Hydro.ShareCutExamples.
 From CGV Require Hydro.HydroCheck Hydro.SquashCheck.
 From CGV Require Resolve.GraphOps Resolve.CopyProofs Resolve.Bonding.
 Import ListNotations.
@@ -252,6 +253,69 @@ Theorem C10_resolve_bang_like_dollar : forall L aa fd meta mol fgs,
   = res_map (smap (bangify L)) (GraphOps.bonding_step true aa meta mol fgs).
 Proof. exact resolve_bang_like_dollar. Qed.
 
+(** the relation [pi] of C10_share_vs_cut_many DERIVED (Hydro/ShareCut.v, with the cut model of the compose
+    component, Compose/CutModel.v).  C: a cut of the molecule with every shared atom duplicated, one copy per
+    fragment, the copies joined by cut bonds `$lab`, lab in L; D: a cut of the molecule itself; [expands]: orig
+    maps the atoms of C onto those of D, two atoms have the same image iff they are connected through the
+    L-labelled cut bonds, and the bonds of D are the images of the bonds of C between different images.
+    gs' / gd: graphs described by the compose component's [skeleton] for C / D (C01_cut_bonding_skeleton).
+    Then squash_atoms of gs' with the L-descriptors written `!` is gd through pi_cut = phi D o orig o phi C^-1. *)
+Theorem C10_share_vs_cut_skeletons : forall C D, CutModel.wf_cut C -> CutModel.wf_cut D -> forall L aa gs' gd,
+  CutSkeleton.skeleton C aa gs' -> CutSkeleton.skeleton D aa gd -> GraphAdj.adj_nodup gs' ->
+  forall orig, ShareCut.expands C D L orig -> forall g', squash_atoms (gmap (bangify L) gs') = Ok g' ->
+  (forall y, In y (node_keys g') -> has_node gd (ShareCut.pi_cut C D orig y) = true) /\
+  (forall a, has_node gd a = true -> exists y, In y (node_keys g') /\ ShareCut.pi_cut C D orig y = a) /\
+  (forall y x, In y (node_keys g') -> In x (node_keys g') ->
+     ShareCut.pi_cut C D orig y = ShareCut.pi_cut C D orig x -> y = x) /\
+  (forall y x, In y (node_keys g') -> In x (node_keys g') ->
+     has_edge g' y x = has_edge gd (ShareCut.pi_cut C D orig y) (ShareCut.pi_cut C D orig x)).
+Proof. exact ShareCut.share_vs_cut_skeletons. Qed.
+(** from the fragments: templates/base graph of C run with the L-descriptors written `!`, templates/base graph
+    of D run as they are; both runs return, and squash_atoms of the first result is the second through pi_cut *)
+Theorem C10_share_vs_cut_resolver : forall C D L aa orig fdC BC fdD BD,
+  CutModel.wf_cut C -> CutModel.templates_ok C fdC -> CutModel.is_base C BC ->
+  CutModel.wf_cut D -> CutModel.templates_ok D fdD -> CutModel.is_base D BD ->
+  (aa = true -> forall x, In x (CutModel.flat C) ->
+     (exists e, aget (S "element") (CutModel.payload C x) = Some e) /\
+     exists h, aget (S "hcount") (CutModel.payload C x) = Some (VInt h)) ->
+  (aa = true -> forall x, In x (CutModel.flat D) ->
+     (exists e, aget (S "element") (CutModel.payload D x) = Some e) /\
+     exists h, aget (S "hcount") (CutModel.payload D x) = Some (VInt h)) ->
+  ShareCut.expands C D L orig ->
+  exists gs fgs gd fgd,
+    (st <- GraphOps.resolve_disconnected (fdmap (bangify L) fdC) BC ;;
+     GraphOps.bonding_step true aa BC (fst st) (snd st)) = Ok (gs, fgs) /\
+    (st <- GraphOps.resolve_disconnected fdD BD ;; GraphOps.bonding_step true aa BD (fst st) (snd st)) = Ok (gd, fgd) /\
+    wf_graph gs /\
+    forall g', squash_atoms gs = Ok g' ->
+      (forall y, In y (node_keys g') -> has_node gd (ShareCut.pi_cut C D orig y) = true) /\
+      (forall a, has_node gd a = true -> exists y, In y (node_keys g') /\ ShareCut.pi_cut C D orig y = a) /\
+      (forall y x, In y (node_keys g') -> In x (node_keys g') ->
+         ShareCut.pi_cut C D orig y = ShareCut.pi_cut C D orig x -> y = x) /\
+      (forall y x, In y (node_keys g') -> In x (node_keys g') ->
+         has_edge g' y x = has_edge gd (ShareCut.pi_cut C D orig y) (ShareCut.pi_cut C D orig x)).
+Proof. exact ShareCut.share_vs_cut_resolver. Qed.
+Theorem C10_expands_decidable : forall C D L orig, ShareCut.expandsb C D L orig = true -> ShareCut.expands C D L orig.
+Proof. exact ShareCut.expandsb_sound. Qed.
+(** non-vacuity: 1-2, 2-3, 2-4, 4-5 with atom 2 shared by three fragments (copies chained by the pairs s, t)
+    and one ordinary cut bond; every hypothesis decided by the sound tests, the conclusion instantiated *)
+Theorem C10_share_vs_cut_resolver_nonvacuous : forall aa : bool,
+  exists gs fgs gd fgd g',
+    (st <- GraphOps.resolve_disconnected (fdmap (bangify ShareCutExamples.exL) (CutModel.fragdict_of ShareCutExamples.exC))
+             (CutModel.base_of ShareCutExamples.exC) ;;
+     GraphOps.bonding_step true aa (CutModel.base_of ShareCutExamples.exC) (fst st) (snd st)) = Ok (gs, fgs) /\
+    (st <- GraphOps.resolve_disconnected (CutModel.fragdict_of ShareCutExamples.exD) (CutModel.base_of ShareCutExamples.exD) ;;
+     GraphOps.bonding_step true aa (CutModel.base_of ShareCutExamples.exD) (fst st) (snd st)) = Ok (gd, fgd) /\
+    squash_atoms gs = Ok g' /\
+    node_keys gs = [0; 1; 2; 3; 4; 5; 6] /\ bang_items gs = [(1, 2); (2, 4)] /\
+    node_keys g' = [0; 1; 3; 5; 6] /\
+    map (ShareCut.pi_cut ShareCutExamples.exC ShareCutExamples.exD ShareCutExamples.ex_orig) (node_keys g') = node_keys gd /\
+    has_edge g' 1 3 = true /\ has_edge g' 1 5 = true /\ has_edge g' 5 6 = true /\ has_edge g' 3 5 = false /\
+    (forall y x, In y (node_keys g') -> In x (node_keys g') ->
+       has_edge g' y x = has_edge gd (ShareCut.pi_cut ShareCutExamples.exC ShareCutExamples.exD ShareCutExamples.ex_orig y)
+                                     (ShareCut.pi_cut ShareCutExamples.exC ShareCutExamples.exD ShareCutExamples.ex_orig x)).
+Proof. exact ShareCutExamples.share_vs_cut_resolver_nonvacuous. Qed.
+
 (** one level up (bond creation, Resolve/Bonding.v with the generated [compatible]): a single descriptor pair
     between two coarse nodes makes exactly one bond — u-v for the `$` pair, v'-v for the `!` pair *)
 Theorem C10_single_pair_bond : forall legacy arom A B x y c t o, A <> B -> (c = "$"%char \/ c = "!"%char) ->
@@ -314,3 +378,7 @@ Print Assumptions C10_bang_bonds_like_dollar.
 Print Assumptions C10_resolve_disconnected_parametric.
 Print Assumptions C10_bonding_step_parametric.
 Print Assumptions C10_resolve_bang_like_dollar.
+Print Assumptions C10_share_vs_cut_skeletons.
+Print Assumptions C10_share_vs_cut_resolver.
+Print Assumptions C10_expands_decidable.
+Print Assumptions C10_share_vs_cut_resolver_nonvacuous.
